@@ -486,6 +486,67 @@ pub fn check_seg_case(c: &SegCase, st: &mut Stats) -> Result<(), Fail> {
     Ok(())
 }
 
+/// consecutive connections on one 4-tuple (client port reuse) through one analyzer: each hello is reported once, like the first
+pub fn check_tuple_reuse(hellos: &[(Hello, Vec<u16>)], v4: bool, st: &mut Stats) -> Result<(), Fail> {
+    let ip = mk_ip(v4);
+    let mut flows = ttl_cache::TtlCache::new(16);
+    let mut isn = 5000u32;
+    let mut done = 0;
+    for (k, (h, raw_cuts)) in hellos.iter().enumerate() {
+        if !h.fits() || h.record().len() > 9000 {
+            st.discards += 1;
+            return Ok(());
+        }
+        let rec = h.record();
+        let mut fresh = ttl_cache::TtlCache::new(16);
+        let single = seg_frames(&ip, 40001, 443, 77, &[rec.clone()]);
+        let reference = match tls_feed(&single[0], &mut fresh) {
+            Ok(Some(o)) => crate::drive::tls_out_str(&o),
+            other => return Err(fail!("reuse:single-segment-not-reported", "{:?}", other.map(|o| o.is_some()))),
+        };
+        let cuts: Vec<usize> = cut_positions(raw_cuts, rec.len()).into_iter().filter(|c| *c >= 5).collect();
+        let segs = split(&rec, &cuts);
+        let frames = seg_frames(&ip, 40001, 443, isn, &segs);
+        isn = isn.wrapping_add(rec.len() as u32).wrapping_add(100_000);
+        let mut reported = 0;
+        for (i, f) in frames.iter().enumerate() {
+            match tls_feed(f, &mut flows) {
+                Ok(Some(o)) => {
+                    reported += 1;
+                    let got = crate::drive::tls_out_str(&o);
+                    if i + 1 != frames.len() || got != reference {
+                        return Err(fail!("reuse:wrong-segment-or-result", "connection #{k} on the reused 4-tuple, segment {i} of {}: expected only on the last one\nexpected {}\ngot      {}", frames.len(), crate::engine::truncate(&reference, 200), crate::engine::truncate(&got, 200)));
+                    }
+                }
+                Ok(None) => {}
+                Err(e) => return Err(fail!("reuse:error", "connection #{k} segment {i}: {e}")),
+            }
+        }
+        if reported != 1 {
+            return Err(fail!("reuse:connection-on-a-reused-4-tuple-not-reported-exactly-once", "connection #{k} (after {done} finished connections on the same 4-tuple, {} segments): {reported} results", frames.len()));
+        }
+        done += 1;
+    }
+    if hellos.len() >= 2 {
+        st.nontrivial(&(hellos.len(), v4, hellos.iter().map(|h| h.1.clone()).collect::<Vec<_>>()));
+    }
+    Ok(())
+}
+
+pub fn run_tuple_reuse(ctx: &Ctx) {
+    let n = ctx.tier.pick(3000, 60_000);
+    ctx.run_prop(
+        "consecutive-connections-on-one-4-tuple",
+        "2..4 generated hellos, each in generated segments (first >= 5 bytes), sent one after the other on the SAME 4-tuple (client port reuse within the flow lifetime) through one packet-level TLS analyzer; oracle: every one of them is reported exactly once, on its completing segment, equal to its single-segment result; non-trivial: >= 2 connections",
+        n,
+        || (proptest::collection::vec((gt::hello(), proptest::collection::vec(prop_oneof![2 => any::<u16>(), 2 => 0u16..600], 0..4)), 2..5), any::<bool>()),
+        |(hs, v4): &(Vec<(Hello, Vec<u16>)>, bool), st: &mut Stats| {
+            st.sample(|| json!({"connections": hs.len(), "record_lens": hs.iter().map(|h| h.0.record().len()).collect::<Vec<_>>()}));
+            check_tuple_reuse(hs, *v4, st)
+        },
+    );
+}
+
 /// TLS results of the sequential capture loops (`analyze_pcap` of the TLS analyzer and of the unified analyzer), in order
 fn pcap_tls(unified: bool, frames: &[Vec<u8>]) -> Result<Vec<String>, String> {
     let path = crate::drive::scratch_file("c08");
@@ -583,6 +644,10 @@ pub fn replay(_ctx: &Ctx, sub: &str, input: &serde_json::Value) -> Result<(), Fa
         "random-partitions" => {
             let c: SegCase = serde_json::from_value(v.clone()).map_err(|e| fail!("bad-replay", "{e}"))?;
             check_seg_case(&c, &mut st)
+        }
+        "consecutive-connections-on-one-4-tuple" => {
+            let (hs, v4): (Vec<(Hello, Vec<u16>)>, bool) = serde_json::from_value(v.clone()).map_err(|e| fail!("bad-replay", "{e}"))?;
+            check_tuple_reuse(&hs, v4, &mut st)
         }
         "capture-loop-segmented" => {
             let c: SegCase = serde_json::from_value(v.clone()).map_err(|e| fail!("bad-replay", "{e}"))?;
